@@ -38,6 +38,18 @@ CLAIMED = {
  "C09": ("proof", "6/C09", "find_links is verified against the membership predicate `qual` of the statement (result set = {l in links(a) : joins a,b and qualifies}); "
          "the agreement with neighbors() is proved pointwise per link (qualifies <=> contributes [b]) and lifted to sizes by the Lean counting lemma; "
          "'empty after unlink, other pairs untouched' is a lemma over unlink's contract."),
+ "C12": ("proof", "6/C12", "(1) ownership discipline of the private containers, checked syntactically on every occurrence in the tree; (2) every read "
+         "accessor / query is verified against a contract whose result is a tuple value or a container allocated by the call (Vertex.links, "
+         "Link.vertices, Universe.vertices, BaseObject.universes, neighbors() - separate lists for the caller and for the memo -, find_links, "
+         "bft/dft_*), so mutating it cannot reach the graph or the memo; (3) constructors and builders take iterables and are verified to store "
+         "only de-duplicated copies (value semantics of the owned fields). NOT proved: UniverseLaws.__init__/edge_whitelist (nested dict copy "
+         "and MappingProxyType are outside the symbolic subset): trusted contract + labelled bounded stand-in on every run."),
+ "C13": ("proof", "6/C13", "(a) the contracts of neighbors, find_links and of every accessor are proved read-only on all outcomes including the "
+         "abnormal ones (a filter raising at any link: loop invariant, so at the k-th invocation for every k; memo written only after the scan); "
+         "(b) make_pyvis_net is verified on all 66 paths (rvfunc / refunc / pyvis raising anywhere) against 'attribute sets and values unchanged, "
+         "temporary index attribute removed'; (c) traversals, searches, basic_render and the PlantUML helpers pass a syntactic effect analysis: no "
+         "attribute store/delete, in-place operations only on containers they allocate, every callee read-only by (a) or a user callback (A7). "
+         "nrpickler.dumps / pyvis internals: assumed not to write to edgegraph objects (A10)."),
  "C19": ("proof", "6/C19", "Both setters are verified (mutually, each against the other's contract) against a total reference model of "
          "'bind'; I19 is proved preserved by the setters and Universe.__init__; 'every assignment succeeds' = the contracts have no "
          "exceptional outcome and every implicit AttributeError/IndexError path is proved infeasible; rule getters return the stored "
